@@ -60,6 +60,12 @@ static std::vector<Plan> c02_fixed(int tier) {
                 p.ops.push_back(Op("hs")); p.ops.push_back(Op("send", dir, 40)); p.ops.push_back(Op("pump"));
                 p.ops.push_back(Op("arm", dir, n, 0, 0, "glue_ccs")); p.ops.push_back(Op("send", dir, 100 + 7 * n)); p.ops.push_back(Op("send", dir, 33)); p.ops.push_back(Op("pump"));
                 v.push_back(p);
+                // ... and with the following honest record in the same read as well
+                Plan q; q.seed = 58500 + f * 100 + (uint64_t) (n * 2 + dir);
+                q.cfg["ver"] = FAMS[f].ver; q.cfg["suite"] = FAMS[f].suite; if (FAMS[f].sid) { q.cfg["sid_kind"] = FAMS[f].sid; }
+                q.ops.push_back(Op("hs")); q.ops.push_back(Op("send", dir, 40)); q.ops.push_back(Op("pump"));
+                q.ops.push_back(Op("arm", dir, n, 1, 0, "glue_ccs")); q.ops.push_back(Op("send", dir, 100 + 7 * n)); q.ops.push_back(Op("send", dir, 33)); q.ops.push_back(Op("pump")); q.ops.push_back(Op("send", dir, 21)); q.ops.push_back(Op("pump"));
+                v.push_back(q);
             }
         }
     }
